@@ -30,6 +30,7 @@ RULE += ("  Also: initial sets made asymmetric by bounds on / near x0; long hist
 RULE += (" Base shifts to arbitrary points of the region.")
 RULE += (' The Models-level views (fun/con values, gradients, curvatures) are probed at fixed points after every update; function values at barrier scale.')
 RULE += (" Family real: in complete runs, TrustRegion.shift_x_base leaves the Hessian, the value and the gradient at the new base of every model unchanged (tap pair on the framework method).")
+RULE += (" Updates that replace a point by itself with other values; contracting long histories.")
 ASSUMPTIONS = [
     "bounds: fresh N*eps*cond2*|z|, one-step N*eps*(cond2*max(|z|,|d|) + "
     "|old coefficients|) in the balanced scaling; held <= 1e3x, violation > "
@@ -517,7 +518,20 @@ def run_case(case):
                                                        "far"])))
             how, k = h.choose_index(x_new)
             fv, cub, ceq = h.pb(x_new)
-            if rng.random() < 0.06:
+            if rng.random() < 0.08:
+                # the point replaces ITSELF with other values (a noisy or
+                # non-deterministic function evaluated twice at one point):
+                # the set is unchanged, the models must still take the new
+                # values
+                k = int(rng.integers(h.npt))
+                x_new = np.array(itp.point(k), copy=True)
+                fv, cub, ceq = h.pb(x_new)
+                fv = float(fv) + float(rng.standard_normal())
+                cub = np.asarray(cub, float) + rng.standard_normal(len(cub))
+                ceq = np.asarray(ceq, float) + rng.standard_normal(len(ceq))
+                kind = "same_point_new_values"
+                jd.count("same_point_updates")
+            elif rng.random() < 0.06:
                 # a value at the extreme barrier (what an undefined objective
                 # value becomes): the update still interpolates it
                 fv = 2.0 ** 100
